@@ -461,11 +461,19 @@ class Impl:
         wait = {'all': all, 'any': any, 'object': object}[policy]
         mrecs = [{'dur': m[0], 'react': m[1], 'daemon': bool(m[2]), 'cancel_seen': None,
                   'finished': None} for m in members]
+        # groups are numbered in the order in which they are entered (the micro-step cancels of
+        # `run` name a member as (group number, member number))
+        gno = self._groups_entered
+        self._groups_entered += 1
         rec = {'kind': 'group', 'node': p, 'parents': stack, 'entered': int(loop.time()),
-               'members': mrecs, 'policy': policy, 'owner': asyncio.current_task()}
+               'members': mrecs, 'policy': policy, 'owner': asyncio.current_task(), 'gno': gno}
         tasks = []
 
-        async def member(mrec, dur, react, had, sub):
+        def hook_of(mno):
+            h = self._hook
+            return h[2] if h is not None and h[0] == gno and h[1] == mno else None
+
+        async def member(mno, mrec, dur, react, had, sub):
             try:
                 try:
                     if had:
@@ -473,9 +481,24 @@ class Impl:
                         async with c.ignore_after(0):
                             await c.sleep(GU)
                     if sub is not None:
-                        return await self.ex(sub, evs, ())
-                    await c.sleep(dur)
-                    return dur
+                        val = await self.ex(sub, evs, ())
+                    else:
+                        await c.sleep(dur)
+                        val = dur
+                    # the member has finished its work by itself; a micro-step cancel of the
+                    # program's task is placed relative to this very completion
+                    hook = hook_of(mno)
+                    if hook == 'pre':
+                        # ... before it: the member still has one step to go
+                        self._fire()
+                        await asyncio.sleep(0)
+                    elif hook == 'last':
+                        # ... in the member's last step
+                        self._fire()
+                    elif hook == 'soon':
+                        # ... in the next loop iteration, ahead of the member's done callbacks
+                        loop.call_soon(self._fire)
+                    return val
                 except c.CancelledError:
                     if react:
                         await c.sleep(react)
@@ -489,8 +512,22 @@ class Impl:
             evs.append(rec)
 
         async def spawn_all(g):
-            for mrec, (dur, react, daemon, had, sub) in zip(mrecs, members):
-                tasks.append(await g.spawn(member(mrec, dur, react, had, sub), daemon=bool(daemon)))
+            for mno, (mrec, (dur, react, daemon, had, sub)) in enumerate(zip(mrecs, members)):
+                t = await g.spawn(member(mno, mrec, dur, react, had, sub), daemon=bool(daemon))
+                tasks.append(t)
+                hook = hook_of(mno)
+                if hook in ('done', 'done+1', 'done+2'):
+                    # ... from a done callback of the member, registered after the group's own:
+                    # in the same loop iteration as the group's bookkeeping of the completion,
+                    # or one / two iterations later
+                    def on_done(task, hops={'done': 0, 'done+1': 1, 'done+2': 2}[hook]):
+                        if task.cancelled():
+                            return
+                        f = self._fire
+                        for _ in range(hops):
+                            f = (lambda g: (lambda: loop.call_soon(g)))(f)
+                        f()
+                    t.add_done_callback(on_done)
         try:
             if mode == 'join':
                 g = c.TaskGroup(wait=wait)
@@ -509,12 +546,22 @@ class Impl:
         close('ok')
         return val
 
+    _hook = None
+    _fire = None
+    _groups_entered = 0
+
     def run(self, p, cancel=None, follow_on=True):
         """Run `p` as a task from time 0, followed IN THE SAME TASK by a long sleep (the
-        follow-on code); optionally call task.cancel() at `cancel` (only while the program
-        itself is still running).  Returns a dict of observations."""
+        follow-on code); optionally call task.cancel() (only while the program itself is still
+        running) - `cancel` is a virtual instant, or ('m', g, m, hook): at loop-iteration
+        granularity relative to the moment member m of the g-th group entered finishes by itself
+        (hook: 'pre' | 'last' | 'soon' | 'done' | 'done+1' | 'done+2', see ex_group).
+        Returns a dict of observations."""
         obs = {}
         nblocks = n_blocks(p)
+        self._groups_entered = 0
+        self._hook = cancel[1:] if isinstance(cancel, tuple) else None
+        self._fire = lambda: None
 
         async def top():
             loop = asyncio.get_event_loop()
@@ -592,11 +639,17 @@ class Impl:
             task = asyncio.ensure_future(program())
             if cancel is not None:
                 def do_cancel():
+                    if delivered:
+                        return
                     delivered.append(not phase['done'])
+                    obs['cancel_t'] = int(loop.time())
                     if not phase['done']:
                         obs['cancel_seq'] = next(seq)
                         task.cancel()
-                loop.call_at(cancel, do_cancel)
+                if isinstance(cancel, tuple):
+                    self._fire = do_cancel
+                else:
+                    loop.call_at(cancel, do_cancel)
             try:
                 await task
             except BaseException:
